@@ -138,7 +138,7 @@ def run(rep: Report, tier: str) -> None:
 	# attrs encoding
 	ra = rep.rule('C14/attr-path-encoding', 'flattened attr paths: writer (seqs.expand) and reader (_deserialize_attrs) use the same "." separator, shallow-to-deep order, integer indices', floor=5)
 	ex = seq.func('expand')
-	sep = {const_str(n.func.value) for n in ast.walk(ex.node) if isinstance(n, ast.Call) and isinstance(n.func, ast.Attribute) and n.func.attr == 'join'}
+	sep = {const_str(n.func.value) for fn in closure(ex) for n in ast.walk(fn) if isinstance(n, ast.Call) and isinstance(n.func, ast.Attribute) and n.func.attr == 'join'}
 	ra.check(sep == {'.'}, 'writer-separator', ex.where, f'seqs.expand joins path elements with {sep}')
 	wattrs = [v for dct in wdicts.values() for kk, v in zip(dct.keys, dct.values) if const_str(kk) == 'attrs']
 	exp_ok = bool(wattrs) and all(any(any(kw.arg == 'iter_key' and const_str(kw.value) == 'attrs' for kw in c_.keywords) and c_.args and unparse(c_.args[0]) == f'{sparam}.attrs' for c_ in calls(v, 'seqs.expand')) and '.types.fullyname' in unparse(v) for v in wattrs)
